@@ -25,7 +25,7 @@ use tari_bulletproofs_plus::{
 };
 
 type P = RistrettoPoint;
-pub const NCALLS: usize = 10;
+pub const NCALLS: usize = 11;
 
 fn digest(parts: &[&[u8]]) -> String {
     let mut h = Sha3_256::new();
@@ -95,6 +95,9 @@ fn verify_digest(stmts: &[RangeStatement<P>], proofs: &[RangeProof<P>], action: 
 
 /// The call menu. `shared` is a parameter object created once by the main thread (its precomputation table is behind an Arc).
 pub fn call(c: usize, shared: &RangeParameters<P>) -> String {
+    call_opt(c, Some(shared))
+}
+pub fn call_opt(c: usize, shared: Option<&RangeParameters<P>>) -> String {
     match c {
         0 => fingerprint(&params(8, 2, 1)),
         1 => fingerprint(&params(8, 4, 1)),
@@ -126,8 +129,21 @@ pub fn call(c: usize, shared: &RangeParameters<P>) -> String {
                 Err(e) => digest(&[b"decode", format!("{:?}", e).as_bytes()]),
             }
         },
+        10 => {
+            // a batch refused for a structural reason at its second member, after the first was already processed
+            let a = make(params(8, 2, 1), 2, 1, false, 7);
+            let b = make(params(8, 4, 1), 1, 1, true, 9);
+            let mut bytes = b.proof.to_bytes();
+            for x in bytes[1 + 32..1 + 64].iter_mut() {
+                *x = 0xff; // A: not the encoding of a point
+            }
+            match RangeProof::<P>::from_bytes(&bytes) {
+                Ok(p) => verify_digest(&[a.stmt, b.stmt], &[a.proof, p], VerifyAction::RecoverAndVerify),
+                Err(e) => digest(&[b"decode", format!("{:?}", e).as_bytes()]),
+            }
+        },
         _ => {
-            let a = make(shared.clone(), 2, 2, false, 11);
+            let a = make(shared.expect("shared parameter object").clone(), 2, 2, false, 11);
             let v = verify_digest(std::slice::from_ref(&a.stmt), std::slice::from_ref(&a.proof), VerifyAction::VerifyOnly);
             digest(&[&a.proof.to_bytes(), v.as_bytes()])
         },
@@ -138,9 +154,15 @@ pub fn shared_params() -> RangeParameters<P> {
     params(16, 2, 2)
 }
 
-pub fn reference() -> Vec<String> {
-    let sh = shared_params();
-    (0..NCALLS).map(|c| call(c, &sh)).collect()
+/// one call, alone in this (fresh, single-threaded) process
+pub fn reference(c: usize) -> String {
+    if c == 9 {
+        call(c, &shared_params())
+    } else {
+        // nothing else is constructed in this process before the call
+        let dummy: Option<RangeParameters<P>> = None;
+        call_opt(c, dummy.as_ref())
+    }
 }
 
 /// Execute histories (one JSON object per line: {threads, steps:[{th, call}]}) with a forced hand-off order.
